@@ -45,7 +45,11 @@ def component_ops(ctx: Ctx, table: list, rng: random.Random) -> list[dict]:
     for row in table:
         cc = gen.cc_of(row)
         if not row["haspos"] or gen.row_classes(row) is None:
-            ops.append({"op": "iban.generate", "cc": cps(cc), "bank": cps("1"), "branch": [], "acct": cps("1")})
+            # no published positions: a library error whatever is supplied - also nothing at all
+            for bank, branch, acct in (("1", "", "1"), ("", "", ""), (" ", "", "\t"), ("0", "0", "0"), ("", "", "0"),
+                                       ("A", "", ""), ("", " ", "")):
+                for op in ("iban.generate", "bban.from_components"):
+                    ops.append({"op": op, "cc": cps(cc), "bank": cps(bank), "branch": cps(branch), "acct": cps(acct)})
             continue
         wb, wr, wa = width(row, "bank_code"), width(row, "branch_code"), width(row, "account_code")
         for i in range(per):
